@@ -152,7 +152,7 @@ fn signal_child(signal: Signal, child: &mut Child, env: &mut Env) -> (r: Result<
 //@ prologue
 broadcast use axiom_terminate_to_nix;
 //@ closure 0
--> (vx_r: Option<NixSignal>) ensures vx_r is Some && vx_r->Some_0.n == SIGTERM
+-> (vx_r: Option<NixSignal>) ensures vx_r is Some && vx_r->Some_0.n == SIGTERM /* OBL:C06+C09.signal_child.requested_signal_or_sigterm */
 //@ item Loop
 
 //@ def OV view(&*old(command_state), *old(previous_run), *old(stop_timer), old(on_end)@, *old(on_end_restart), *old(error_handler), *old(spawn_hook))
